@@ -5,3 +5,12 @@ U8_32 = 'const unsigned char[32]'
 OBLS.append(Obl('C05.sets.printable_idempotent', ['C05', 'C11'], 'P#', 'c05/lemmas.c', roots=['bit_at'], includes=INC, unwind=8,
                 globals=[(n + '_PERCENT_ENCODE', U8_32) for n in ('C0_CONTROL', 'FRAGMENT', 'QUERY', 'SPECIAL_QUERY', 'PATH', 'USERINFO')], timeout=120,
                 note='bytes left unencoded are printable ASCII; the escape alphabet is never re-encoded (all 256 bytes x 6 sets)'))
+
+from obligations.c09 import ABSTRACT as _ABS, SPECS as _SP
+_sp = dict(_SP); _sp['percent_encode'] = 'skel/percent_encode.trail.spec'; _sp['agg_update_base_pathname'] = 'skel/agg_update_base_pathname.opaque.spec'; _sp['parse_url_impl_agg_1'] = 'parse_url_impl_agg_1.opaque.spec'
+OBLS.append(Obl('C05.parse_url_impl.opaque_path_no_trailing_space', ['C05', 'C19', 'C02'], 'Pinf', 'c05/parse_opaque_space.c', roots=['parse_url_impl_agg_1'],
+                stub=_ABS, specs=_sp, bufn=8, defines=['STR_CAP=6', 'BUF_START=1'], includes=['spec/urlspec.h', 'spec/scan.h'],
+                globals=[('omitted', 'const unsigned int')], enums=[('ada::state', x) for x in ('PORT', 'FRAGMENT', 'RELATIVE_SCHEME', 'RELATIVE_SLASH', 'SPECIAL_RELATIVE_OR_AUTHORITY', 'AUTHORITY', 'QUERY')] + [('ada::scheme::type', 'NOT_SPECIAL')],
+                solver='cadical', timeout=3000, object_bits=12, unwind=12,
+                note='parser state machine (loops cut, editors abstract): the path text written for an opaque-path URL never ends in a raw space (pre-condition of the abstract '
+                     'update_base_pathname at every call site)'))
